@@ -2,9 +2,14 @@
 //! workspaces of trivial crates; stdout / exit status and the tree below the package directory are observed.
 //!
 //! fields (see lean/CnbVerif/Driver/C15.lean): bps | inv | cfg | prev | ops
-//! observation: `ok;<stdout lines sorted>;<tree before>;<tree after>` | `err:<kind>;<stdout lines>` | `timeout` | `tool-build-failed`
+//! observation: `ok;<stdout lines sorted>;<tree before>;<tree after>[;src-changed:<hex path>]` | `err:<kind>;<stdout lines>` | `timeout` | `tool-build-failed`
+//!
+//! The package directory may be any directory: outside the workspace, a fresh one inside it, or one that holds buildpack
+//! sources (the workspace root, `bps`, a buildpack's own directory …). The observed tree is what lies below the package
+//! directory *minus* the workspace sources as they were materialised and minus cargo's own files (`target/`, `Cargo.lock`);
+//! the sources are compared separately (before the first run / after the last one): any difference is `src-changed`.
 use cnbv::*;
-use std::collections::BTreeSet;
+use std::collections::{BTreeMap, BTreeSet};
 use std::fs;
 use std::os::unix::ffi::OsStrExt;
 use std::os::unix::process::CommandExt;
@@ -279,28 +284,65 @@ fn pkg_token(bytes: &[u8], scratch: &str) -> Option<String> {
     Some(format!("pkg:{}:{}:{}", hx(bp), join(",", &deps), os))
 }
 
+/// what the walk below the package directory does not report: the workspace sources as materialised (their directories are
+/// still entered), cargo's target directories and lock files (never entered)
+struct Hide { sources: BTreeMap<PathBuf, String>, cargo: Vec<PathBuf> }
+
 /// sorted entries below the package directory
-fn tree(pkgdir: &Path, scratch: &str, ws: &[PathBuf], seeded: &[Vec<u8>]) -> String {
-    fn walk(root: &Path, dir: &Path, scratch: &str, ws: &[PathBuf], seeded: &[Vec<u8>], out: &mut Vec<(String, String)>) {
+fn tree(pkgdir: &Path, scratch: &str, ws: &[PathBuf], seeded: &[Vec<u8>], hide: &Hide) -> String {
+    fn walk(root: &Path, dir: &Path, scratch: &str, ws: &[PathBuf], seeded: &[Vec<u8>], hide: &Hide, out: &mut Vec<(String, String)>) {
         let Ok(rd) = fs::read_dir(dir) else { return };
         for e in rd.filter_map(Result::ok) {
             let p = e.path();
+            if hide.cargo.iter().any(|c| *c == p) { continue; }
             let rel = String::from_utf8_lossy(p.strip_prefix(root).unwrap().as_os_str().as_bytes()).into_owned();
             let Ok(md) = fs::symlink_metadata(&p) else { continue };
+            let hidden = hide.sources.contains_key(&p);
             if md.file_type().is_symlink() {
-                out.push((rel.clone(), format!("L {} {}", rel, hex(fs::read_link(&p).unwrap().as_os_str().as_bytes()))));
+                if !hidden { out.push((rel.clone(), format!("L {} {}", rel, hex(fs::read_link(&p).unwrap().as_os_str().as_bytes())))); }
             } else if md.is_dir() {
-                out.push((rel.clone(), format!("D {rel}")));
-                walk(root, &p, scratch, ws, seeded, out);
-            } else {
+                if !hidden { out.push((rel.clone(), format!("D {rel}"))); }
+                walk(root, &p, scratch, ws, seeded, hide, out);
+            } else if !hidden {
                 out.push((rel.clone(), format!("F {} {}", rel, content_token(&p, scratch, ws, seeded))));
             }
         }
     }
     let mut out = vec![];
-    walk(pkgdir, pkgdir, scratch, ws, seeded, &mut out);
+    walk(pkgdir, pkgdir, scratch, ws, seeded, hide, &mut out);
     out.sort();
     join("|", &out.into_iter().map(|(_, l)| l).collect::<Vec<_>>())
+}
+
+fn source_token(p: &Path) -> String {
+    match fs::symlink_metadata(p) {
+        Err(_) => "gone".into(),
+        Ok(md) if md.file_type().is_symlink() => format!("L{}", hex(fs::read_link(p).map(|t| t.as_os_str().as_bytes().to_vec()).unwrap_or_default().as_slice())),
+        Ok(md) if md.is_dir() => "D".into(),
+        Ok(_) => format!("F{}", hex(&fs::read(p).unwrap_or_default())),
+    }
+}
+
+/// every entry below the workspace directory with what it is / holds (taken before the tool runs for the first time)
+fn snapshot_sources(ws: &Path) -> BTreeMap<PathBuf, String> {
+    fn walk(dir: &Path, out: &mut BTreeMap<PathBuf, String>) {
+        let Ok(rd) = fs::read_dir(dir) else { return };
+        for e in rd.filter_map(Result::ok) {
+            let p = e.path();
+            let t = source_token(&p);
+            let is_dir = t == "D";
+            out.insert(p.clone(), t);
+            if is_dir { walk(&p, out); }
+        }
+    }
+    let mut out = BTreeMap::new();
+    walk(ws, &mut out);
+    out
+}
+
+/// the first source entry that is no longer what it was
+fn first_source_change(ws: &Path, snap: &BTreeMap<PathBuf, String>) -> Option<String> {
+    snap.iter().find(|(p, t)| source_token(p) != **t).map(|(p, _)| p.strip_prefix(ws).unwrap_or(p).to_string_lossy().into_owned())
 }
 
 fn stdout_lines(scratch: &str, s: &str) -> String {
@@ -313,7 +355,16 @@ fn run_case_inner(f: &[String], alone: bool) -> String {
     if f.len() != 5 { return "bad-case".into(); }
     let Some(bps) = parse_bps(&f[0]) else { return "bad-case".into() };
     let inv = f[1].as_str();
-    let Some((profile, pd)) = f[2].split_once(',') else { return "bad-case".into() };
+    // cfg: profile , package dir [, L<hex dir> = `$T/lnk` is a symbolic link to that workspace directory] [, N = no ignore file]
+    let mut cfgp = f[2].split(',');
+    let (Some(profile), Some(pd)) = (cfgp.next(), cfgp.next()) else { return "bad-case".into() };
+    let mut link: Option<String> = None;
+    let mut no_ignore = false;
+    for x in cfgp {
+        if x == "N" { no_ignore = true; }
+        else if let Some(t) = x.strip_prefix('L').and_then(unhx) { if t.is_empty() || t.starts_with('/') || t.split('/').any(|c| c == "..") { return "bad-case".into(); } link = Some(t); }
+        else { return "bad-case".into(); }
+    }
     let release = match profile { "dev" => false, "release" => true, _ => return "bad-case".into() };
     let tool = match tool() { Ok(p) => p.clone(), Err(e) => return e.clone() };
     let tmp = tempfile::Builder::new().prefix("c15-").tempdir_in("/tmp").unwrap();
@@ -322,6 +373,12 @@ fn run_case_inner(f: &[String], alone: bool) -> String {
     materialise(&ws, &bps);
     let cwd = dir_of(&ws, inv);
     if !cwd.is_dir() { fs::create_dir_all(&cwd).unwrap(); }
+    let lnk = tmp.path().join("lnk");
+    if let Some(t) = &link {
+        let target = dir_of(&ws, t);
+        if !target.is_dir() { fs::create_dir_all(&target).unwrap(); }
+        std::os::unix::fs::symlink(&target, &lnk).unwrap();
+    }
     // the --package-dir argument as the tool receives it, and where that is
     let arg: Option<String> = if pd == "-" { None } else {
         let Some(t) = unhx(pd) else { return "bad-case".into() };
@@ -332,11 +389,25 @@ fn run_case_inner(f: &[String], alone: bool) -> String {
     let mut tdirs: Vec<PathBuf> = vec![ws.join("target")];
     for bp in &bps { if let Kind::Libcnb { standalone: true, .. } = &bp.kind { tdirs.push(dir_of(&ws, &bp.dir).join("target")); } }
     if !pkgdir.starts_with(tmp.path()) { return "bad-case:package-dir-outside-scratch".into(); }
-    // the ignore file for the output directory (the property's quantifier)
-    let mut ignore = String::from("packaged/\n");
-    if let Ok(rel) = pkgdir.strip_prefix(&eff_root) { if !rel.as_os_str().is_empty() { ignore.push_str(&format!("/{}/\n", rel.to_str().unwrap())); } }
-    fs::write(eff_root.join(".ignore"), &ignore).unwrap();
-    if eff_root != ws { fs::write(ws.join(".ignore"), "packaged/\n").unwrap(); }
+    // the directory the package directory really is (through `$T/lnk`)
+    let real_pkgdir = match (&link, pkgdir.strip_prefix(&lnk)) { (Some(t), Ok(rest)) => lexical(&dir_of(&ws, t).join(rest)), _ => pkgdir.clone() };
+    // the ignore file for the output directory (the property's quantifier). A package directory that exists already — it is or
+    // holds workspace sources — is not ignored as a whole (that would hide the buildpacks), only the output below it is.
+    if no_ignore {
+        for bp in &bps { let _ = fs::remove_file(dir_of(&ws, &bp.dir).join(".ignore")); }
+    } else {
+        let mut ignore = String::from("packaged/\n");
+        if let Ok(rel) = real_pkgdir.strip_prefix(&eff_root) {
+            let rel = rel.to_str().unwrap();
+            if real_pkgdir.is_dir() { ignore.push_str(&format!("/{}{}{TRIPLE}/\n", rel, if rel.is_empty() { "" } else { "/" })); }
+            else if !rel.is_empty() { ignore.push_str(&format!("/{rel}/\n")); }
+        }
+        fs::write(eff_root.join(".ignore"), &ignore).unwrap();
+        if eff_root != ws { fs::write(ws.join(".ignore"), "packaged/\n").unwrap(); }
+    }
+    let mut cargo_files: Vec<PathBuf> = tdirs.clone();
+    cargo_files.extend(tdirs.iter().map(|t| t.with_file_name("Cargo.lock")));
+    let hide = Hide { sources: snapshot_sources(&ws), cargo: cargo_files };
 
     let _guard = if alone { Guard::Excl(ALONE.write().unwrap()) } else { Guard::Shared(ALONE.read().unwrap()) };
 
@@ -351,16 +422,19 @@ fn run_case_inner(f: &[String], alone: bool) -> String {
         if o.timed_out { return "timeout".into(); }
     }
     for op in split_list(&f[4], "|") {
-        fs::create_dir_all(&pkgdir).unwrap();
-        if apply_op(&pkgdir, op).is_none() { return "bad-case:op".into(); }
+        fs::create_dir_all(&real_pkgdir).unwrap();
+        if apply_op(&real_pkgdir, op).is_none() { return "bad-case:op".into(); }
     }
     let seeded: Vec<Vec<u8>> = split_list(&f[4], "|").iter().filter_map(|op| op.split_once("=F").and_then(|(_, h)| unhex(h))).collect();
-    let pre = tree(&pkgdir, &scratch, &tdirs, &seeded);
+    let pre = tree(&real_pkgdir, &scratch, &tdirs, &seeded, &hide);
     let o = run_tool_once(&tool, tmp.path(), &cwd, release, arg.as_deref(), "run");
     if o.timed_out { return "timeout".into(); }
     let lines = stdout_lines(&scratch, &o.stdout);
     match o.status {
-        Some(0) => format!("ok;{};{};{}", lines, pre, tree(&pkgdir, &scratch, &tdirs, &seeded)),
+        Some(0) => {
+            let changed = first_source_change(&ws, &hide.sources).map(|p| format!(";src-changed:{}", hx(&p))).unwrap_or_default();
+            format!("ok;{};{};{}{}", lines, pre, tree(&real_pkgdir, &scratch, &tdirs, &seeded, &hide), changed)
+        }
         Some(_) => format!("err:{};{}", err_kind(&o.stderr), lines),
         None => format!("err:killed;{lines}"),
     }
@@ -563,7 +637,19 @@ fn random_ops(r: &mut Rng, bps: &[Bp], release: bool, after_prev: bool) -> Vec<S
     ops
 }
 
-fn emit_case(emit: &mut dyn FnMut(Case), shape: &Shape, inv: &str, profile: &str, pd: Option<&str>, prev: &str, ops: &[String], family: &str) {
+/// the `--package-dir` of a case: the argument, what `$T/lnk` points to (if used), whether the workspace carries an ignore
+/// file, and the relation of the package directory to the buildpack sources (tag)
+#[derive(Clone)]
+struct PdSpec { arg: Option<String>, link: Option<String>, no_ignore: bool, rel: &'static str, spell: &'static str }
+
+impl PdSpec {
+    /// default / a fresh directory that holds no sources (parts 1 and 2)
+    fn plain(arg: Option<&str>) -> PdSpec { PdSpec { arg: arg.map(str::to_string), link: None, no_ignore: false, rel: if arg.is_some() { "fresh" } else { "default" }, spell: "-" } }
+    fn holds_sources(&self) -> bool { matches!(self.rel, "root" | "anc-all" | "anc-some" | "bpdir" | "foreign-dir" | "in-bp") }
+}
+
+fn emit_case(emit: &mut dyn FnMut(Case), shape: &Shape, inv: &str, profile: &str, pds: &PdSpec, prev: &str, ops: &[String], family: &str) {
+    let pd: Option<&str> = pds.arg.as_deref();
     let all = &shape.bps;
     // what the tool sees: the buildpack directories at or below the root of the cargo workspace the invocation directory belongs to
     let eff = effective_root(all, inv);
@@ -582,14 +668,17 @@ fn emit_case(emit: &mut dyn FnMut(Case), shape: &Shape, inv: &str, profile: &str
     let stale = touched || (prev != "-");
     let extra_deps = cl.len() > roots.len();
     let multi_bin = packable.iter().any(|b| cl.contains(&b.id) && matches!(&b.kind, Kind::Libcnb { bins, .. } if bins.len() > 1));
-    let fields = vec![join(";", &all.iter().map(enc_bp).collect::<Vec<_>>()), inv.to_string(), format!("{},{}", profile, pd.map(hx).unwrap_or_else(|| "-".into())), prev.to_string(), join("|", ops)];
+    let mut cfg = format!("{},{}", profile, pd.map(hx).unwrap_or_else(|| "-".into()));
+    if let Some(t) = &pds.link { cfg.push_str(&format!(",L{}", hx(t))); }
+    if pds.no_ignore { cfg.push_str(",N"); }
+    let fields = vec![join(";", &all.iter().map(enc_bp).collect::<Vec<_>>()), inv.to_string(), cfg, prev.to_string(), join("|", ops)];
     let pd_kind = match pd { None => "default", Some(p) if p.starts_with("$T") => "absolute", Some(_) => "relative" };
     emit(Case {
         fields,
-        tags: vec![("kind".into(), format!("{family}-{expect}")), ("inv".into(), inv_kind.into()), ("profile".into(), profile.into()), ("pkgdir".into(), pd_kind.into()),
+        tags: vec![("kind".into(), format!("{family}-{expect}")), ("inv".into(), inv_kind.into()), ("profile".into(), profile.into()), ("pkgdir".into(), pd_kind.into()), ("pdrel".into(), pds.rel.into()), ("pdspell".into(), pds.spell.into()), ("ignore-file".into(), u8::from(!pds.no_ignore).to_string()),
                    ("seed".into(), (if prev != "-" { "earlier-run" } else if ops.is_empty() { "clean" } else { "puts" }).into()), ("bps".into(), all.len().to_string()), ("unselected-besides".into(), u8::from(packable.len() > cl.len()).to_string()),
                    ("built".into(), cl.len().min(6).to_string()), ("deps-beyond-selection".into(), u8::from(extra_deps).to_string()), ("multi-bin".into(), u8::from(multi_bin).to_string())],
-        nontrivial: expect == "ok" && (stale || extra_deps || multi_bin) || expect == "bad-bins",
+        nontrivial: expect == "ok" && (stale || extra_deps || multi_bin || pds.holds_sources()) || expect == "bad-bins",
     });
 }
 
@@ -606,13 +695,139 @@ fn inv_dirs(shape: &Shape, r: Option<&mut Rng>) -> Vec<String> {
     v
 }
 
+// ------------------------------------------------------------------------------------------------ part 3: where the package directory is
+
+fn join_rel(a: &str, b: &str) -> String { if a == "." { b.to_string() } else if b == "." { a.to_string() } else { format!("{a}/{b}") } }
+fn below(d: &str, anc: &str) -> bool { anc == "." || d == anc || d.starts_with(&format!("{anc}/")) }
+
+/// directories (relative to the outer workspace root) by their relation to the buildpack sources the tool sees from `inv`:
+/// the root of the cargo workspace, plain ancestors of all / of some buildpack directories, a buildpack's own directory
+/// (libcnb.rs / composite, foreign), a directory inside a crate, a fresh sibling of sources, a fresh directory in cargo's `target/`
+fn related_dirs(shape: &Shape, inv: &str) -> Vec<(&'static str, String)> {
+    let eff = effective_root(&shape.bps, inv);
+    let visible: Vec<&Bp> = shape.bps.iter().filter(|b| below(&b.dir, &eff)).collect();
+    let packable: Vec<&Bp> = visible.iter().copied().filter(|b| !matches!(b.kind, Kind::Foreign)).collect();
+    let mut out: Vec<(&'static str, String)> = vec![("root", eff.clone())];
+    let mut ancs: BTreeSet<String> = BTreeSet::new();
+    for b in &visible {
+        let mut d = b.dir.clone();
+        while let Some((parent, _)) = d.rsplit_once('/') {
+            d = parent.to_string();
+            if d != eff && below(&d, &eff) && !visible.iter().any(|x| x.dir == d) { ancs.insert(d.clone()); }
+        }
+    }
+    for a in &ancs { out.push((if packable.iter().all(|b| below(&b.dir, a)) { "anc-all" } else { "anc-some" }, a.clone())); }
+    for b in &visible { if b.dir != eff { out.push((if matches!(b.kind, Kind::Foreign) { "foreign-dir" } else { "bpdir" }, b.dir.clone())); } }
+    for b in &packable { if matches!(b.kind, Kind::Libcnb { .. }) { out.push(("in-bp", join_rel(&b.dir, "src"))); } }
+    for b in &packable {
+        if b.dir == eff { continue; }
+        let parent = b.dir.rsplit_once('/').map(|(p, _)| p.to_string()).unwrap_or_else(|| ".".into());
+        if below(&parent, &eff) { out.push(("sibling", join_rel(&parent, "zz-out"))); }
+    }
+    out.push(("in-target", join_rel(&eff, "target/pk")));
+    out.dedup();
+    out
+}
+
+const SPELLINGS: &[&str] = &["rel", "abs", "abs-slash", "abs-dotdot", "rel-dotdot", "link", "link-slash"];
+
+/// the `--package-dir` argument naming the workspace directory `d` when the tool is started in `inv`
+fn spell_pkgdir(d: &str, inv: &str, spelling: &'static str, rel: &'static str, no_ignore: bool) -> PdSpec {
+    let tail = if d == "." { String::new() } else { format!("/{d}") };
+    let (arg, link) = match spelling {
+        "rel" => (if d == inv { ".".to_string() } else if inv == "." { d.to_string() } else if let Some(r) = d.strip_prefix(&format!("{inv}/")) { r.to_string() } else { let u = up(inv); if d == "." { u.trim_end_matches('/').to_string() } else { format!("{u}{d}") } }, None),
+        "abs" => (format!("$T/ws{tail}"), None),
+        "abs-slash" => (format!("$T/ws{tail}/"), None),
+        "abs-dotdot" => (format!("$T/x/../ws{tail}"), None),
+        "rel-dotdot" => (format!("{}../ws{tail}", up(inv)), None),
+        "link" => ("$T/lnk".to_string(), Some(d.to_string())),
+        _ => ("$T/lnk/".to_string(), Some(d.to_string())),
+    };
+    PdSpec { arg: Some(arg), link, no_ignore, rel, spell: spelling }
+}
+
+fn can_rerun(shape: &Shape) -> bool {
+    let packable: Vec<&Bp> = shape.bps.iter().filter(|b| !matches!(b.kind, Kind::Foreign)).collect();
+    let dangling = packable.iter().any(|b| refs(b).iter().any(|x| !packable.iter().any(|p| &p.id == x)));
+    let any_bad = packable.iter().any(|b| matches!(&b.kind, Kind::Libcnb { pkg, bins, .. } if bins.is_empty() || (bins.len() > 1 && !bins.contains(pkg))));
+    !dangling && !any_bad
+}
+
+/// part 3: the relation between the package directory and the source tree as a dimension
+fn generate_pkgdir_relations(thorough: bool, search: bool, seed: u64, emit: &mut dyn FnMut(Case)) {
+    // 3a (bounded exhaustive): three fixed workspaces x invocation directories x every related directory, first run, ignore file present
+    if !search {
+        let shapes = fixed_shapes();
+        let plan: [(usize, &[&str]); 4] = [(0, &[".", "bps/a"]), (1, &[".", "bps/a", "meta/top", "meta"]), (3, &[".", "sub/one"]), (5, &[".", "ext/solo", "m/a"])];
+        let mut k = 0usize;
+        for (si, invs) in plan {
+            let shape = &shapes[si];
+            for inv in invs {
+                let at_root = effective_root(&shape.bps, inv) == *inv;
+                let mut seen: BTreeSet<String> = BTreeSet::new();
+                let mut per_rel: BTreeMap<&'static str, usize> = BTreeMap::new();
+                for (rel, d) in related_dirs(shape, inv) {
+                    if !seen.insert(d.clone()) { continue; }
+                    // from the root of the cargo workspace: every ancestor and buildpack directory, one of the other relations;
+                    // from elsewhere: the root, the invocation directory itself, one directory of every other relation
+                    let n = per_rel.entry(rel).or_insert(0);
+                    *n += 1;
+                    let every = at_root && matches!(rel, "anc-all" | "anc-some" | "bpdir" | "foreign-dir");
+                    if !(every || *n == 1 || d == *inv) { continue; }
+                    let spelling = SPELLINGS[k % SPELLINGS.len()];
+                    let profile = if k % 3 == 2 { "release" } else { "dev" };
+                    k += 1;
+                    emit_case(emit, shape, inv, profile, &spell_pkgdir(&d, inv, spelling, rel, false), "-", &[], "pkgdir-fixed");
+                }
+            }
+        }
+    }
+    // 3b: seeded random workspaces x (root, a buildpack directory, now and then a plain one) x a related directory x a spelling x history
+    let n_ws: u64 = if thorough { 150 } else if search { 10 } else { 14 };
+    for w in 0..n_ws {
+        let mut r = Rng::for_case(seed, 1_000_000 + w);
+        let shape = random_shape(&mut r, thorough);
+        let packable_dirs: Vec<String> = shape.bps.iter().filter(|b| !matches!(b.kind, Kind::Foreign)).map(|b| b.dir.clone()).collect();
+        let mut invs = vec![".".to_string()];
+        let others: Vec<String> = packable_dirs.iter().filter(|d| *d != ".").cloned().collect();
+        if !others.is_empty() { invs.push(r.pick(&others).clone()); }
+        if thorough && others.len() > 1 && r.chance(1, 2) { let d = r.pick(&others).clone(); if !invs.contains(&d) { invs.push(d); } }
+        if r.chance(1, 3) { invs.extend(shape.plain_dirs.iter().take(1).cloned()); }
+        // from the root of a workspace whose root is no buildpack, a second package directory: that is where "everything is selected"
+        if !shape.bps.iter().any(|b| b.dir == ".") { invs.push(".".to_string()); }
+        for inv in invs {
+            let cands = related_dirs(&shape, &inv);
+            // relations first, then a directory of that relation (else the many buildpack directories dominate)
+            let mut rels: Vec<&'static str> = cands.iter().map(|c| c.0).collect();
+            rels.dedup();
+            let rel = *r.pick(&rels);
+            let of_rel: Vec<&(&'static str, String)> = cands.iter().filter(|c| c.0 == rel).collect();
+            let d = r.pick(&of_rel).1.clone();
+            let spelling = *r.pick(SPELLINGS);
+            let profile = if r.chance(1, 2) { "dev" } else { "release" };
+            let mode = r.below(12);
+            let here = effective_root(&shape.bps, &inv);
+            let (no_ignore, prev, ops) = if mode < 5 { (false, "-".to_string(), vec![]) }
+                else if mode < 7 { (true, "-".to_string(), vec![]) }
+                else if mode < 9 || !can_rerun(&shape) { (false, "-".to_string(), random_ops(&mut r, &shape.bps, profile == "release", false)) }
+                else {
+                    let same: Vec<String> = packable_dirs.iter().filter(|d| effective_root(&shape.bps, d) == here).cloned().collect();
+                    let pinv = if same.is_empty() || r.chance(1, 2) { here.clone() } else { r.pick(&same).clone() };
+                    let pprof = if r.chance(3, 4) { profile } else if profile == "dev" { "release" } else { "dev" };
+                    (false, format!("{pinv},{pprof}"), random_ops(&mut r, &shape.bps, profile == "release", true))
+                };
+            emit_case(emit, &shape, &inv, profile, &spell_pkgdir(&d, &inv, spelling, rel, no_ignore), &prev, &ops, "pkgdir-random");
+        }
+    }
+}
+
 fn generate(tier: &str, seed: u64, emit: &mut dyn FnMut(Case)) {
     let thorough = tier == "thorough";
     let search = std::env::var("VERIF_SEARCH").is_ok();
     // part 1 (bounded exhaustive): three fixed workspaces x every invocation directory x both profiles, clean package directory
     if !search {
         for shape in fixed_shapes() {
-            for inv in inv_dirs(&shape, None) { for profile in ["dev", "release"] { emit_case(emit, &shape, &inv, profile, None, "-", &[], "fixed"); } }
+            for inv in inv_dirs(&shape, None) { for profile in ["dev", "release"] { emit_case(emit, &shape, &inv, profile, &PdSpec::plain(None), "-", &[], "fixed"); } }
         }
     }
     // part 2: seeded random workspaces x every invocation directory
@@ -641,9 +856,11 @@ fn generate(tier: &str, seed: u64, emit: &mut dyn FnMut(Case)) {
             let dangling = packable.iter().any(|b| refs(b).iter().any(|x| !packable.iter().any(|p| &p.id == x)));
             let any_bad = packable.iter().any(|b| matches!(&b.kind, Kind::Libcnb { pkg, bins, .. } if bins.is_empty() || (bins.len() > 1 && !bins.contains(pkg))));
             let prev = if prev != "-" && (dangling || any_bad) { "-".to_string() } else { prev };
-            emit_case(emit, &shape, &inv, profile, pd, &prev, &ops, "random");
+            emit_case(emit, &shape, &inv, profile, &PdSpec::plain(pd), &prev, &ops, "random");
         }
     }
+    // part 3: package directories that are, hold, or lie among the buildpack sources
+    if std::env::var("VERIF_C15_NO_PKGDIR_RELATIONS").is_err() { generate_pkgdir_relations(thorough, search, seed, emit); }
 }
 
 fn main() { main_loop_jobs("c15", 8, &generate, &run_case); }
